@@ -103,6 +103,53 @@ def _flag_false_edge_blocks(ctx, R, body):
     return out
 
 
+def _flag_false_label(lab):
+    """edge label saying: the flag value observed under the lock was false"""
+    if lab[0] != "bool":
+        return False
+    e, val = lab[1], lab[2]
+    neg = False
+    while e[0] == "unop" and e[1] == "Not":
+        e = e[2]
+        neg = not neg
+    want_false = (val is False) if not neg else (val is True)
+    return want_false and any(re.search(RE_LOCK, c[1] or "") for c in expr_calls(e))
+
+
+def _write_true_blocks(ctx, R, body):
+    return {bb for bb, v in _flag_writes(ctx, R, body) if v == "1"}
+
+
+def enq_guarded(ctx, R, body, bb):
+    """(flag observed false before, true written before) for the enqueue at bb: by dominance, or -- when the test sits in
+    a helper whose Option/bool result is matched again (inlined) -- on every flag/variant-feasible path arriving at bb."""
+    from lib_flow import all_arrivals_cross, all_arrivals_visit
+    fl = ctx.flow(body)
+    dom_false = any(body.dominates(x, bb) for x in _flag_false_edge_blocks(ctx, R, body))
+    if not dom_false:
+        try:
+            dom_false = all_arrivals_cross(body, fl, bb, _flag_false_label)[0]
+        except RuntimeError:
+            dom_false = False
+    wr = _writes_true_before(ctx, R, body, bb)
+    if not wr:
+        wt = _write_true_blocks(ctx, R, body)
+        try:
+            from lib_flow import sensitive_paths
+            arrivals = 0
+            ok = True
+            for kind, path, know in sensitive_paths(body, fl, 2):
+                for i, x in enumerate(path):
+                    if x == bb:
+                        arrivals += 1
+                        if not any(y in wt for y in path[:i]):
+                            ok = False
+            wr = ok and arrivals > 0
+        except RuntimeError:
+            wr = False
+    return dom_false, wr
+
+
 def _writes_true_before(ctx, R, body, bb):
     """Some dominating block performs mem::replace(<locked flag>, true) or a store of true through the guard."""
     fl = ctx.flow(body)
@@ -146,8 +193,7 @@ def r1_2(ctx, R):
         nots = [bb for bb, t, fn in direct_sites(b, RE_NOTIFY)]
         for bb, t, fn in enqs:
             n += 1
-            dom_false = any(b.dominates(x, bb) for x in falseb)
-            wr = _writes_true_before(ctx, R, b, bb)
+            dom_false, wr = enq_guarded(ctx, R, b, bb)
             ctx.ob("R1.2", b, "enq-guarded-by-flag@%s" % _site_label(b, bb), dom_false and wr, b.loc(bb),
                    "flag-false edge dominates=%s, true written before=%s" % (dom_false, wr))
             after = any(b.dominates(bb, x) for x in nots)
@@ -555,6 +601,73 @@ def group_loop_fns(ctx):
     return out
 
 
+def _turn_counter_exhausted(ctx, b, fl, pb, ibb):
+    """Hand-written form of `for _ in 0..groups.len()`: a local initialised (before the loop) to Vec::len of the groups,
+    stepped by -1 (or a second local stepped +1 and compared with that length) on every cycle through the inner poll, and
+    the Pending return reachable only across the edge on which the counter is exhausted."""
+    from lib_flow import all_arrivals_via_edge
+    loops = [(h, body) for h, body in b.loops().items() if ibb in body]
+    if not loops:
+        return False, ""
+    head, body = max(loops, key=lambda x: len(x[1]))
+    for l, defs in fl.defs.items():
+        inits, steps, other = [], [], []
+        for (bb, idx, kind, node) in defs:
+            if kind == "call" and bb not in body and b.dominates(bb, head):
+                e = fl.call_expr(node, bb)
+                inits.append((bb, e))
+                continue
+            if kind != "assign":
+                other.append(bb)
+                continue
+            e = fl.rvalue_expr(node["rv"], bb)
+            x = e[1] if (e[0] == "proj" and e[2] == (".0",)) else e
+            if x[0] == "binop" and x[1].startswith(("Sub", "Add")) and x[2] == ("multi", l) and x[3][0] == "const" and x[3][2] == "1" and bb in body:
+                steps.append((bb, -1 if x[1].startswith("Sub") else 1))
+            elif bb not in body and b.dominates(bb, head):
+                inits.append((bb, e))
+            else:
+                other.append(bb)
+        if len(inits) != 1 or not steps or other or {k for _, k in steps} != {-1}:
+            continue
+        ie = inits[0][1]
+        if not (ie[0] == "call" and (ie[1] or "").endswith("::len") and "Vec" in (ie[1] or "")):
+            continue
+        step_bbs = {bb for bb, _ in steps}
+        # every cycle through the inner poll passes the decrement
+        def reach(src, dst, avoid):
+            seen, work = {src}, [src]
+            while work:
+                x_ = work.pop()
+                for y_ in b.normal_succ(x_):
+                    if y_ == dst:
+                        return True
+                    if y_ in body and y_ not in seen and y_ not in avoid:
+                        seen.add(y_)
+                        work.append(y_)
+            return False
+        if ibb not in step_bbs and (head == ibb or reach(head, ibb, step_bbs)) and reach(ibb, head, step_bbs):
+            continue
+        for sb in body:
+            for tgt, labs in fl.edge_labels(sb).items():
+                for lab in labs:
+                    if lab[0] != "bool" or lab[1][0] != "binop":
+                        continue
+                    op, a_, c_ = lab[1][1], lab[1][2], lab[1][3]
+                    if not (a_ == ("multi", l) and c_[0] == "const" and c_[2] == "0"):
+                        continue
+                    exhausted = (op == "Gt" and lab[2] is False) or (op == "Eq" and lab[2] is True) or (op == "Ne" and lab[2] is False) or \
+                        (op == "Le" and lab[2] is True)
+                    if not exhausted:
+                        continue
+                    try:
+                        if all_arrivals_via_edge(b, fl, pb, [(sb, tgt)]):
+                            return True, "Pending behind exhaustion of a turn counter initialised to %s and decremented on every cycle" % expr_str(ie)
+                    except RuntimeError:
+                        pass
+    return False, ""
+
+
 def r1_7(ctx, R):
     ctx.rule("R1.7", "unbounded variants poll every group before Pending: (a) every Pending return is behind "
                      "exhaustion (None) of a Range iterator whose end is Vec::len(groups) read before the loop; (b) "
@@ -606,6 +719,8 @@ def r1_7(ctx, R):
                                 and "Vec" in hi[1] and not any(hi[3] in body for body in b.loops().values()):
                             ok = True
                             det = "Pending behind exhaustion of 0..%s (len read at bb%d, before the loop)" % (expr_str(hi), hi[3])
+            if not ok:
+                ok, det = _turn_counter_exhausted(ctx, b, fl, pb, ibb)
             ctx.ob("R1.7", b, "pending-only-after-all-groups#%d" % pend.index(pb), ok, b.loc(pb), det)
         ctx.floor("R1.7", "pending-returns:" + b.path, len(pend), 1)
         # (c) pending arm advances the cursor; loop head wraps
